@@ -206,7 +206,7 @@ def build_real_layer(tf, qkeras, c):
   try:   # first call creates the variables (the inner BatchNormalization is built by the call)
     layer(tf2.zeros((1, c["h"], c["w"], c["cin"])), training=False)
   except Exception:  # pylint: disable=broad-except
-    pass            # (before fix PENDING-center center=False raised here, after the variables exist)
+    pass            # (before fix d42f1d8 center=False raised here, after the variables exist)
   set_folded_params(c, layer)
   return layer
 
@@ -287,7 +287,7 @@ def stream_layers(run, tf, qkeras, rng, tier):
             variants.append((None, q2, "linear"))
           for (qk, qb, act) in variants:
             cases.append(layer_case(rng, geo, mode, use_bias, scale, True, qk, qb, act, "exact"))
-  # center=False (used to raise; regression of fix PENDING-center): un-quantized and quantized
+  # center=False (used to raise; regression of fix d42f1d8): un-quantized and quantized
   for gi, geo in enumerate(geos[:3] + geos[len(geos) // 2:len(geos) // 2 + 3]):
     for mode in ("ema_stats_folding", "batch_stats_folding"):
       cases.append(layer_case(rng, geo, mode, bool(gi % 2), bool((gi + 1) % 3), False, None, None, "linear", "exact"))
@@ -330,7 +330,7 @@ def stream_layers(run, tf, qkeras, rng, tier):
     except Exception as e:  # pylint: disable=broad-except
       err = "%s: %s" % (type(e).__name__, str(e)[:200])
     y_model = dec(o["y"])
-    # ---- center=False (repaired by PENDING-center: beta None -> 0): same checks as every other case
+    # ---- center=False (repaired by d42f1d8: beta None -> 0): same checks as every other case
     if not c["center"]:
       run.count("layer:center=False")
     if err is not None:
@@ -915,7 +915,7 @@ def run(run: core.Run, tier: str):
   import qkeras
   rng = np.random.default_rng(run.seed)
   run.extra["rule"] = (
-      "layer stream (code with fix PENDING-center): {QConv2DBatchnorm, QDepthwiseConv2DBatchnorm} x {ema,batch}_stats_folding x use_bias x "
+      "layer stream (code with fix d42f1d8): {QConv2DBatchnorm, QDepthwiseConv2DBatchnorm} x {ema,batch}_stats_folding x use_bias x "
       "scale x center x geometry {valid,same} x {plain, strided, dilated, rectangular, 1x1, depth multiplier} x "
       "{no quantizer, kernel+bias quantized_bits, kernel only, bias only} x {linear, relu}; exact regime "
       "(eps=2^-10, var=4^j-eps, short dyadic gamma incl. 0 and negative) compared bit for bit with the Lean "
